@@ -516,7 +516,12 @@ def field_coverage(ctx, rule):
     f = ctx.facts
 
     def reads(path, adt="jsontypes::RawSourceMap"):
-        b = ctx.body(path)
+        out = set()
+        for b in [ctx.body(path)] + list(ctx.facts.closures_of(path)):
+            out |= reads_body(b, adt)
+        return out
+
+    def reads_body(b, adt):
         out = set()
         for bi, si, s, is_term in b.locations():
             ops = []
